@@ -359,8 +359,8 @@ def load_findings():
         if not line or line.startswith("#"):
             continue
         if line.startswith("finding:"):
-            head, _, what = line[len("finding:"):].partition("::")
-            kv = dict(x.split("=", 1) for x in head.split())
+            head, _, what = line[len("finding:"):].partition(" :: ")
+            kv = dict((m.group(1), m.group(2).strip()) for m in re.finditer(r"(\b(?:property|id|class|where))=(.*?)(?=\s+(?:property|id|class|where)=|$)", head.strip()))
             kv["what"] = what.strip(); kv["status"] = "open"
             out.append(kv)
         elif line.startswith("fixed:"):
